@@ -9,6 +9,7 @@ import (
 	"golang.org/x/tools/go/ssa"
 
 	"verif/tool/absint"
+	"verif/tool/load"
 )
 
 func init() { register("C13", "other", C13) }
@@ -43,29 +44,86 @@ func C13(ctx *Ctx) {
 		R.Fail("attach", "Bus", "", "bus.Bus or its dispatch table field not found")
 		return
 	}
-	isSegAddr := func(v ssa.Value) (*ssa.IndexAddr, bool) {
-		ia, ok := v.(*ssa.IndexAddr)
-		if !ok {
-			return nil, false
-		}
-		fa, ok := ia.X.(*ssa.FieldAddr)
-		if !ok || fa.Field != segF || !types.Identical(fa.X.Type(), types.NewPointer(busT)) {
-			return nil, false
-		}
-		return ia, true
-	}
-	// ---- who writes the table
-	var tableStores []*ssa.Store
+	// table addresses: &b.segment, and - through static calls - the parameters of module functions that are handed
+	// one (a table type with methods, a helper taking the table by pointer)
+	tableAddr := map[ssa.Value]bool{}
+	var work []ssa.Value
 	for _, fn := range ctx.Prog.AllFuncs() {
-		for _, b := range fn.Blocks {
-			for _, in := range b.Instrs {
-				if s, ok := in.(*ssa.Store); ok {
-					if _, ok := isSegAddr(s.Addr); ok {
-						tableStores = append(tableStores, s)
-					}
+		for _, blk := range fn.Blocks {
+			for _, in := range blk.Instrs {
+				if fa, ok := in.(*ssa.FieldAddr); ok && fa.Field == segF && types.Identical(fa.X.Type(), types.NewPointer(busT)) {
+					tableAddr[fa] = true
+					work = append(work, fa)
 				}
 			}
 		}
+	}
+	var tableStores []*ssa.Store
+	var escapes []ssa.Instruction
+	for len(work) > 0 {
+		v := work[len(work)-1]
+		work = work[:len(work)-1]
+		refs := v.Referrers()
+		if refs == nil {
+			continue
+		}
+		for _, ref := range *refs {
+			switch r := ref.(type) {
+			case *ssa.DebugRef:
+			case *ssa.IndexAddr:
+				if r.X != v {
+					escapes = append(escapes, ref)
+					continue
+				}
+				for _, u := range *r.Referrers() {
+					switch x := u.(type) {
+					case *ssa.Store:
+						if x.Addr == ssa.Value(r) {
+							tableStores = append(tableStores, x)
+						} else {
+							escapes = append(escapes, u)
+						}
+					case *ssa.UnOp, *ssa.DebugRef:
+					default:
+						escapes = append(escapes, u)
+					}
+				}
+			case *ssa.UnOp:
+				if r.Op != token.MUL {
+					escapes = append(escapes, ref)
+				}
+			case *ssa.Store:
+				if r.Addr == v {
+					tableStores = append(tableStores, r) // the whole table replaced
+				} else {
+					escapes = append(escapes, ref)
+				}
+			case *ssa.Call:
+				callee := r.Call.StaticCallee()
+				if bi, ok := r.Call.Value.(*ssa.Builtin); ok && (bi.Name() == "len" || bi.Name() == "cap") {
+					continue
+				}
+				if callee == nil || callee.Blocks == nil || !load.InModule(callee) {
+					escapes = append(escapes, ref)
+					continue
+				}
+				for i, a := range r.Call.Args {
+					if a == v && i < len(callee.Params) && !tableAddr[callee.Params[i]] {
+						tableAddr[callee.Params[i]] = true
+						work = append(work, callee.Params[i])
+					}
+				}
+			default:
+				escapes = append(escapes, ref)
+			}
+		}
+	}
+	isSegAddr := func(v ssa.Value) (*ssa.IndexAddr, bool) {
+		ia, ok := v.(*ssa.IndexAddr)
+		if !ok || !tableAddr[ia.X] {
+			return nil, false
+		}
+		return ia, true
 	}
 	attach := ctx.Prog.Method("emulator/bus", "Bus", "Attach")
 	if attach == nil || len(attach.Params) != 5 {
@@ -74,21 +132,33 @@ func C13(ctx *Ctx) {
 	}
 	apos := ctx.Prog.Pos(attach.Pos())
 	memP, startP, endP := attach.Params[1], attach.Params[3], attach.Params[4]
+	// a store is Attach's if it is in Attach or in a helper all of whose call sites are Attach's (transitively)
+	sites := staticCallSites(ctx.Prog.AllFuncs())
+	var ofAttach func(f *ssa.Function, depth int) bool
+	ofAttach = func(f *ssa.Function, depth int) bool {
+		if f == attach {
+			return true
+		}
+		if depth > 4 || sites.asValue[f] || len(sites.sites[f]) == 0 || (f.Object() != nil && f.Object().Exported()) {
+			return false
+		}
+		for _, c := range sites.sites[f] {
+			if !ofAttach(c.Parent(), depth+1) {
+				return false
+			}
+		}
+		return true
+	}
 	okWriters := true
 	for _, s := range tableStores {
-		if s.Parent() != attach {
+		if !ofAttach(s.Parent(), 0) {
 			okWriters = false
 			R.Fail("attach", "table-written-by:"+fnShort(s.Parent()), ctx.Prog.Pos(s.Pos()), "the dispatch table is stored to outside Attach")
 		}
 	}
-	if esc := addrEscapesOfField(ctx, busT, segF); len(esc) > 0 {
-		for _, e := range esc {
-			if _, isIA := e.(*ssa.IndexAddr); isIA {
-				continue
-			}
-			okWriters = false
-			R.Fail("attach", "table-address-escapes:"+fnShort(e.Parent()), ctx.Prog.Pos(e.Pos()), "the table's address is used other than for element access")
-		}
+	for _, e := range escapes {
+		okWriters = false
+		R.Fail("attach", "table-address-escapes:"+fnShort(e.Parent()), ctx.Prog.Pos(e.Pos()), "the table's address is used other than for element access")
 	}
 	if okWriters {
 		R.Pass("attach", "table-writers", apos, fmt.Sprintf("%d store(s), all in Attach", len(tableStores)))
@@ -237,7 +307,13 @@ func C13(ctx *Ctx) {
 	busPk := ctx.Prog.Pkg("emulator/bus")
 	nRoute := 0
 	for _, fn := range ctx.Prog.AllFuncs() {
-		if fn.Pkg != busPk || fn.Signature.Recv() == nil || !absint.IsAcyclic(fn) {
+		if fn.Pkg != busPk || fn.Signature.Recv() == nil {
+			continue
+		}
+		// accessors written with small counted loops are interpreted with the loops unrolled; EaDump's loop runs
+		// over a caller-chosen range and has its own rule below
+		cyclic := !absint.IsAcyclic(fn)
+		if cyclic && fn == ctx.Prog.Method("emulator/bus", "Bus", "EaDump") {
 			continue
 		}
 		// does it invoke a backend?
@@ -257,6 +333,7 @@ func C13(ctx *Ctx) {
 		key := fnShort(fn)
 		for _, slotNil := range []bool{false, true} {
 			ip := absint.New()
+			ip.UnrollLoops = cyclic
 			b := &absint.Ptr{Nil: absint.TriF, Obj: ip.SymObj("b", busT), T: busT}
 			args := []absint.Val{b}
 			for i, p := range fn.Params[1:] {
